@@ -24,6 +24,7 @@ FIX = [  # (substring of commit subject, property, key at the time, what failed)
  ('parse.String returns', 'C16', 'panic:named-scalar-env', 'type Level uint8 via env panicked (top level) or was silently dropped (nested)'),
  ('ReverseTranslate accepts a pointer', 'C20', 'crash:transform.(*Transformer).ReverseTranslate', 'an inner source or watcher (e.g. a Blank) handing a POINTER to the translated struct through a transforming source panicked (slice bounds out of range)'),
  ('a wrapped watching source', 'C20', 'wrapped-watcher-update-not-reversed', 'updates through NewTransformingSource reached the monitor in the mangled type'),
+ ('AnonymousFlattenMangler.Unmangle indexed past', 'C10', 'panic:transform.AnonymousFlattenMangler.unmangleStruct', 'chain starting with AnonymousFlattenMangler on a slice/array of structs whose element embeds a struct with a field after the last hoisted one (trailing unexported field): index out of range in ReverseTranslate'),
  ('recognizes initialisms that have', 'C19', 'goident-mismatch:initialism=HTTPS', 'HTTPS -> [http s], UID -> [ui d]'),
  ('splits a trailing run', 'C19', 'goident-mismatch:trailing-run-UTF8', 'IDXMLUTF8 -> [idxmlutf8]'),
 ]
